@@ -315,6 +315,23 @@ def _add_to_set_is_insert_if_absent(p, mod):
     return True
 
 
+def _len_before_after(e, fd):
+    """`n == len(self.seen)` where n = len(self.seen) was taken before the one `self.seen.add(K)` that precedes the test: returns K"""
+    def is_len_seen(x):
+        return isinstance(x, ast.Call) and dotted(x.func) == 'len' and x.args and dotted(x.args[0]) == 'self.seen'
+    sides = [e.left, e.comparators[0]]
+    names = [x for x in sides if isinstance(x, ast.Name)]
+    if len(names) != 1 or not any(is_len_seen(x) for x in sides):
+        return None
+    defs = [n for n in walk_no_nested(fd) if isinstance(n, ast.Assign) and is_name(n.targets[0], names[0].id)]
+    adds = [c for c in walk_no_nested(fd) if isinstance(c, ast.Call) and isinstance(c.func, ast.Attribute) and c.func.attr == 'add' and dotted(c.func.value) == 'self.seen' and len(c.args) == 1]
+    if len(defs) != 1 or len(adds) != 1 or not is_len_seen(defs[0].value):
+        return None
+    if not (defs[0].lineno < adds[0].lineno <= e.lineno):
+        return None
+    return adds[0].args[0]
+
+
 def rule_wr_uniq(cx, rep, port):
     p, mod, chain, sinks = _roles(cx, port)
     uniq = [c for c in chain if 'seen' in roles.self_attrs_assigned(roles.methods(c)['__init__'])]
@@ -356,6 +373,10 @@ def rule_wr_uniq(cx, rep, port):
     elif isinstance(e, ast.Call) and isinstance(e.func, ast.Attribute) and e.func.attr == 'has' and dotted(e.func.value) == 'self.seen':
         is_new_when_true = False
         keyexpr = e.args[0]
+    elif isinstance(e, ast.Compare) and len(e.ops) == 1 and isinstance(e.ops[0], (ast.Eq, ast.NotEq)) and _len_before_after(e, fd) is not None:
+        # size before == size after the insertion: the set did not grow, the record was there already (add_to_set inlined)
+        keyexpr = _len_before_after(e, fd)
+        is_new_when_true = isinstance(e.ops[0], ast.NotEq)
     else:
         rep.undecided(_key(c, 'write'), e, 'membership idiom not recognised: `{}`'.format(node_text(e)))
         return
